@@ -29,6 +29,13 @@ CHECKS = {
     design_ref="DESIGN.md section 4"),
   level_note="Trusted: cairo-vm as judge of invalid executions; the honest hint code as reference; entry code in the runner's testing configuration. Later hints are honest relative to the state the lie produced. Functions returning pointers are skipped and listed in the evidence.",
   technique="deterministic simulation with fault injection (seeded/enumerated dishonest-prover hint faults against the real VM)"),
+"C13": dict(
+  engine="simdb",
+  level_claimed=dict(category="exploration",
+    text="Deterministic simulation of an editor session against one long-lived RootDatabase: PRNG-generated histories (<=12 steps quick, <=30 thorough) of override edits of 25+ kinds (trivia, renames, item/statement insertion, deletion, duplication and moves, syntax-breaking and repairing edits, torn writes), override unset, disk faults under an override (save, torn save, delete, restore), partial queries and queries on snapshots in between, queries cancelled at the k-th executed query, and task-permuted parallel warm-up. After the checked steps the observable (diagnostics with line/column, Sierra with debug-name ids, item-location map through stable pointers) must equal that of a fresh database on the same disk contents and overrides; syntax-tree text/span invariants are checked on sampled nodes. Failures are delta-debugged to a minimal history and confirmed by replay in a fresh process. Seeded search, not exhaustive.",
+    design_ref="DESIGN.md section 6"),
+  level_note="Reference model = a fresh compiler instance on the same contents; fresh results memoised by content hash (pure function, see C12). Single-threaded histories. The editor is simulated; project templates are small (3 projects incl. a Starknet contract with plugin-generated code).",
+  technique="deterministic simulation with fault injection (seeded edit/query/cancellation/disk-fault histories vs fresh-database reference model)"),
 }
 def main():
     hooks_commits = []
@@ -40,6 +47,7 @@ def main():
      "hooks":{"guard":"cairo_verif (rustc --cfg)","enable":"/verif/sim/.cargo/config.toml sets rustflags = [\"--cfg\", \"cairo_verif\"] for the harness workspace, whose path dependencies are /repo/crates/*; nothing in /repo enables it","baseline_off_cmd":"cd /repo && cargo nextest run --workspace --no-fail-fast --offline --test-threads 8 || cargo test --workspace --no-fail-fast --offline","source_commits":hooks_commits,"add_only":True},
      "engines":[
        {"name":"simhint","path":"sim/simhint","serves_properties":["C03"],"kind_free_text":"PRNG/enumeration-driven dishonest prover wrapped around CairoHintProcessor; real compiler, real cairo-vm"},
+       {"name":"simdb","path":"sim/simdb","serves_properties":["C13","C12"],"kind_free_text":"history/schedule simulator around one real salsa RootDatabase: simulated editor, disk faults, cancellation via tracing seam, H1 task executor, H2 hash seed"},
      ],
      "checks":[],
      "notes":"Technique family: deterministic simulation with fault injection. See DESIGN.md; 17 properties are pure functions of their input and are listed as not applicable.",
